@@ -340,3 +340,10 @@ func Concurrent(f func()) {
 	}
 	wg.Wait()
 }
+
+// Note records a diagnostic string in the native result (no effect under the executor). INTERCEPTED.
+func Note(s string) {
+	mu.Lock()
+	cur.Notes = append(cur.Notes, s)
+	mu.Unlock()
+}
